@@ -57,11 +57,17 @@ func replayCheck(args []string) (any, error) {
 				delete(call, w)
 				delete(check, w)
 			}
+			for _, w := range ps.WithoutCall {
+				delete(call, w)
+			}
+			for _, w := range ps.WithoutCheck {
+				delete(check, w)
+			}
 			_, errs := engine.ParseScript(map[string]string{ps.Main: text}, call, check)
 			lerr = errs[ps.Main]
 		}
 		sig := fmt.Sprintf("check:v2=%v:%s", ps.V2, text)
-		detail := map[string]any{"script": text, "v2": ps.V2, "without": ps.Without, "want_accept": v.Accept, "tag": ps.Tag}
+		detail := map[string]any{"script": text, "v2": ps.V2, "without": ps.Without, "without_call": ps.WithoutCall, "without_check": ps.WithoutCheck, "want_accept": v.Accept, "tag": ps.Tag}
 		if (lerr == nil) != v.Accept {
 			detail["load_error"] = fmt.Sprint(lerr)
 			sum.miss(sig, detail)
